@@ -16,6 +16,8 @@ class Ctx:
     s = None            # current Sched
     env = None          # current Env
     installed = False
+    chunker_call_limit = None
+    chunker_calls = 0
     tool = None
     codes = None
     probes = None
@@ -120,6 +122,10 @@ class _Jitter:
         return CTX.env.jitter.uniform(a, b)
 
 
+class ChunkerNoProgress(Exception):
+    pass
+
+
 class SimChunkerNative:
     """Wraps the compiled chunker so that the <=3 bytes it may read past the buffer come
     from the seeded `memory` stream instead of the allocator (replay determinism)."""
@@ -131,6 +137,11 @@ class SimChunkerNative:
         self.max_length = self._c.max_length
 
     def next_cut(self, buffer, final=False):
+        lim = CTX.chunker_call_limit
+        if lim is not None:
+            CTX.chunker_calls += 1
+            if CTX.chunker_calls > lim:
+                raise ChunkerNoProgress(f'{CTX.chunker_calls} next_cut calls')
         if len(buffer) < self.max_length + 8:
             tail = CTX.env.memory.randbytes(8) if CTX.env is not None else bytes(8)
             return self._c._verif_next_cut_arena(bytes(buffer), final, tail)
